@@ -247,6 +247,7 @@ func c03programs(env sched.Env) *sched.Report {
 					sched.Progress(cs)
 					r := c03run(cs)
 					rep.Execs++
+					sched.Progress(nil)
 					rep.Transitions += int64(len(cs.Prog))
 					if r.sig != "" {
 						rep.Outcomes["violation: "+r.sig]++
@@ -385,6 +386,7 @@ func c03values(env sched.Env) *sched.Report {
 				sched.Progress(cs)
 				sig, detail := c03valueRun(cs, env.Tier)
 				rep.Execs++
+				sched.Progress(nil)
 				if sig != "" {
 					rep.Outcomes["violation: "+sig]++
 					if !sigs[sig] {
@@ -512,6 +514,7 @@ func c19hotkeyCommand(env sched.Env) *sched.Report {
 		}
 		e := sched.RunOnce(nil, sched.Options{MaxSteps: 400000}, body)
 		rep.Execs++
+		sched.Progress(nil)
 		rep.Transitions += int64(e.Steps())
 		for _, f := range e.Failures {
 			sig, detail = f.Sig, f.Detail
